@@ -49,7 +49,7 @@ PROBES = ['smtp', 'http', 'null-sender', 'quoted-local-part', 'utf8-address',
           'no-pipelining', 'no-8bitmime', 'no-smtputf8', 'size-advertised',
           'starttls', 'auth', 'helo-fallback', 'connection-reuse',
           'queue-error-reply', '8bit-body', 'dot-lines', 'bare-newlines',
-          'body-starts-blank', 'concurrent-requests',
+          'body-starts-blank', 'concurrent-requests', 'lmtp-client',
           'no-final-newline', 'folded-header', '7bit-conversion-refused',
           'rcpt-rejected-by-edge', 'duplicate-recipient']
 STATES_MEASURE = 'distinct (transport, withheld extensions, address kinds, body flags) tuples'
@@ -130,7 +130,15 @@ def generate(seed, tier='quick'):
                      'body_kind': body_kind,
                      'queue': rng.choice([None, None, None, 'qerr',
                                           'qerr-reply'])})
-    return {'property': ID, 'harness': 'hop', 'seed': seed,
+    lmtp = transport == 'smtp' and not helo and rng.random() < 0.25
+    if lmtp:
+        # the SMTP edge gives one reply to the content: an LMTP client can
+        # use it for messages with one accepted recipient
+        for m in msgs:
+            acc = [r for r in m['rcpts'] if not r.startswith('nouser')]
+            rej = [r for r in m['rcpts'] if r.startswith('nouser')]
+            m['rcpts'] = rej[:1] + acc[:1] if acc else rej[:1]
+    return {'property': ID, 'harness': 'hop', 'seed': seed, 'lmtp': lmtp,
             'sched_seed': rng.getrandbits(48), 'transport': transport,
             'drop': drop, 'max_size': rng.choice([None, None, 100000]),
             'tls': tls, 'auth': auth, 'helo_fallback': helo,
@@ -342,11 +350,31 @@ def _smtp(world, scn, result):
                 if recipient.startswith('nouser'):
                     reply.code = '550'
                     reply.message = '5.1.1 no such user'
+        class LmtpSession(esmtp.SmtpSession):
+            """the edge's session class, also greeting LMTP clients: LHLO
+            is EHLO by another name (RFC 2033)"""
+
+            def LHLO(self, reply, arg, server):
+                if not server.bannered or not arg:
+                    return
+                lhlo_as = arg.decode('utf-8')
+                reply.code = '250'
+                reply.enhanced_status_code = False
+                reply.message = 'Hello ' + lhlo_as
+                self.EHLO(reply, lhlo_as)
+                if reply.code == '250':
+                    reply.message = server.extensions.build_string(
+                        reply.message)
+                    server.have_mailfrom = None
+                    server.have_rcptto = None
+                    server.ehlo_as = lhlo_as
         edge = esmtp.SmtpEdge(None, q, max_size=scn['max_size'],
                               validator_class=V,
                               auth=[b'PLAIN'] if scn['auth'] else False,
                               context=SimTLSContext() if scn['tls'] else None,
-                              hostname='edge.sim')
+                              hostname='edge.sim',
+                              session_class=LmtpSession if scn.get('lmtp')
+                              else None)
         servers = []
 
         def connect(address, *a, **kw):
@@ -358,9 +386,17 @@ def _smtp(world, scn, result):
             servers.append(gevent.spawn(edge.handle, cb, ca.getsockname()))
             return ca
 
-        class RecClient(SmtpRelayClient):
+        base_client = SmtpRelayClient
+        relay_class = StaticSmtpRelay
+        if scn.get('lmtp'):
+            from slimta.relay.smtp.lmtpclient import LmtpRelayClient
+            from slimta.relay.smtp.static import StaticLmtpRelay
+            base_client, relay_class = LmtpRelayClient, StaticLmtpRelay
+            world.probe('lmtp-client')
+
+        class RecClient(base_client):
             def _ehlo(self):
-                r = SmtpRelayClient._ehlo(self)
+                r = base_client._ehlo(self)
                 ext_seen.append(dict(self.client.extensions.extensions))
                 return r
         kwargs = dict(socket_creator=connect, ehlo_as='relay.sim',
@@ -370,7 +406,7 @@ def _smtp(world, scn, result):
                       client_class=RecClient)
         if scn['auth'] and not scn['helo_fallback']:
             kwargs['credentials'] = ('user', 'secret')
-        relay = StaticSmtpRelay('edge.sim', 25, **kwargs)
+        relay = relay_class('edge.sim', 25, **kwargs)
         results = []
         conns = 0
         for j, m in enumerate(scn['messages']):
